@@ -359,6 +359,7 @@ func inputPeerNum(p tg.InputPeerClass) int {
 type dlgServer struct {
 	ds    []dlg
 	kinds string
+	cap   int // server-side page cap: a page holds min(limit, cap) dialogs
 	reqs  []string
 }
 
@@ -376,11 +377,15 @@ func (s *dlgServer) Query(ctx context.Context, req dialogs.Request) (tg.Messages
 		}
 	}
 	page := rem
-	if req.Limit < len(page) {
-		page = page[:req.Limit]
+	ps := req.Limit
+	if s.cap < ps {
+		ps = s.cap
+	}
+	if ps < len(page) {
+		page = page[:ps]
 	}
 	kind := byte('s')
-	if i < len(s.kinds) && s.kinds[i] == 'f' && len(rem) <= req.Limit {
+	if i < len(s.kinds) && s.kinds[i] == 'f' && len(rem) <= ps {
 		kind = 'f'
 	}
 	var (
@@ -584,13 +589,25 @@ func run(c *hc.Ctx) error {
 			srv.script = []scriptPage{}
 		}
 		maxCalls := total + 4
-		obs, _, _, _, p := iterateMsgs(srv, limit, maxCalls)
+		obs, ys, _, _, p := iterateMsgs(srv, limit, maxCalls)
 		line := fmt.Sprintf("script %d %d %s", limit, maxCalls, orDash(strings.Join(parts, ";")))
 		c.Eval(line, np > 0)
 		c.Count("script")
 		if p != nil {
 			c.Fail("msg-panic", line, fmt.Sprint(p))
 			obs = "panic"
+		}
+		// `messages.messages` is the complete result: whatever its length, nothing is yielded after it
+		// (an endpoint that ignores the offset would otherwise be iterated forever)
+		upto := 0
+		for _, pg := range pages {
+			upto += len(pg.ids)
+			if pg.kind == 'f' {
+				if len(ys) > upto {
+					c.Fail("msg-continues-after-complete-answer", line, fmt.Sprintf("%d items yielded, the complete answer ended after %d", len(ys), upto))
+				}
+				break
+			}
 		}
 		add(line, obs)
 	}
@@ -615,10 +632,18 @@ func run(c *hc.Ctx) error {
 	for _, cf := range dcfgs {
 		ds := genDlgs(r, cf.n)
 		kinds := genKinds(r, r.Range(0, cf.n/cf.limit+3))
-		srv := &dlgServer{ds: ds, kinds: kinds}
+		// server-side page cap (Telegram clamps the limit): usually no cap, sometimes smaller than the limit
+		capv := cf.limit + r.Intn(3)
+		if r.Chance(35) {
+			capv = r.Range(1, cf.limit)
+		}
+		if capv < cf.limit {
+			c.Count("dlg.server-caps-page")
+		}
+		srv := &dlgServer{ds: ds, kinds: kinds, cap: capv}
 		maxCalls := cf.n + 5
 		obs, ys, done, after, lastBad, p := iterateDlgs(srv, cf.limit, maxCalls)
-		line := fmt.Sprintf("dlg %d %d %s %s", cf.limit, maxCalls, orDash(kinds), showDlgs(ds))
+		line := fmt.Sprintf("dlg %d %d %d %s %s", cf.limit, capv, maxCalls, orDash(kinds), showDlgs(ds))
 		c.Eval(line, cf.n > cf.limit)
 		switch {
 		case cf.n == 0:
@@ -644,13 +669,13 @@ func run(c *hc.Ctx) error {
 			c.Fail("dlg-no-stop", line, "Next still true after every dialog was yielded")
 		case after:
 			c.Fail("dlg-restart", line, "Next returned true again after it returned false")
-		case len(srv.reqs) > ceilDiv(cf.n, cf.limit)+1+2:
+		case len(srv.reqs) > ceilDiv(cf.n, minOf(cf.limit, capv))+1+2:
 			c.Fail("dlg-too-many-requests", line, fmt.Sprintf("%d requests", len(srv.reqs)))
 		}
 		add(line, obs)
 	}
 	c.Res.Exhaustive = true
-	c.Res.Rule = fmt.Sprintf("messages: every (n, page size) with n ≤ %d, page size 1..n+1 enumerated (exhaustive grid), plus random histories up to %d items (strictly descending positive ids, gaps 1..5), exact multiples, page sizes n-1/n/n+1, constructor wishes full/slice/channel per request; scripted answers with unsorted/repeated ids; dialogs: grid n ≤ %d plus random lists with many date/top-message ties; non-trivial = more items than one page; distinct = distinct input line", grid, maxN, dgrid)
+	c.Res.Rule = fmt.Sprintf("messages: every (n, page size) with n ≤ %d, page size 1..n+1 enumerated (exhaustive grid), plus random histories up to %d items (strictly descending positive ids, gaps 1..5), exact multiples, page sizes n-1/n/n+1, constructor wishes full/slice/channel per request; scripted answers with unsorted/repeated ids; dialogs: grid n ≤ %d plus random lists with many date/top-message ties, server-side page caps below the requested limit; non-trivial = more items than one page; distinct = distinct input line", grid, maxN, dgrid)
 
 	outs, err := c.Drv.Batch(lines)
 	if err != nil {
@@ -662,6 +687,13 @@ func run(c *hc.Ctx) error {
 		}
 	}
 	return nil
+}
+
+func minOf(a, b int) int {
+	if a < b {
+		return a
+	}
+	return b
 }
 
 func maxOf(a, b int) int {
